@@ -517,7 +517,7 @@ def driver_supports(driver, op):
     return bool(out) and out[0] == "YES"
 
 
-def run_huge(res, bdir, config, tests, sig_prefix="huge"):
+def run_huge(res, bdir, config, tests, sig_prefix="huge", parallel=False):
     """thorough tier: harness/x_huge.c against the library in bdir (lengths of 2^32 bytes and more); returns the result lines"""
     exe = os.path.join(bdir, "x_huge")
     rc, log = sh(["gcc", "-O2", "-I" + os.path.join(REPO, "src"), "-I" + os.path.join(REPO, "src", "ascon"), os.path.join(VERIF, "harness", "x_huge.c"),
@@ -526,8 +526,13 @@ def run_huge(res, bdir, config, tests, sig_prefix="huge"):
         res.violation("harness-build-failed@x_huge", "harness/x_huge.c no longer compiles against /repo:\n" + log[-1200:], {"log_tail": log[-3000:]}, no_input=True)
         return []
     lines = []
-    for t in tests:
-        p = subprocess.run(["timeout", "1500", exe, t], stdout=subprocess.PIPE, stderr=subprocess.PIPE)
+    procs = [(t, subprocess.Popen(["timeout", "1500", exe, t], stdout=subprocess.PIPE, stderr=subprocess.PIPE)) for t in tests] if parallel else None
+    for i, t in enumerate(tests):
+        if parallel:
+            o, e = procs[i][1].communicate()
+            p = subprocess.CompletedProcess([exe, t], procs[i][1].returncode, o, e)
+        else:
+            p = subprocess.run(["timeout", "1500", exe, t], stdout=subprocess.PIPE, stderr=subprocess.PIPE)
         out = p.stdout.decode("utf-8", "replace").split("\n")
         for l in out:
             if l.startswith("FAIL "):
